@@ -776,7 +776,14 @@ class Engine:
                 lo, hi = (-(1 << (w - 1)), (1 << (w - 1)) - 1) if s else (0, (1 << w) - 1)
                 if not lo <= r <= hi: raise Panic('overflow', 'unchecked arithmetic overflowed (UB)')
             return IntV(w, r, s)
-        if op in ('Div', 'Rem', 'Cmp'): raise Unsupported('symbolic ' + op)
+        if op in ('Div', 'Rem'):
+            # symbolic dividend, concrete divisor: exact (table domain for one-byte values, bvudiv/bvsdiv/bvurem/bvsrem otherwise)
+            if bv.__class__ is not int: raise Unsupported('symbolic divisor in ' + op)
+            y = sx(b) if s else bv
+            if y == 0: raise Panic('div', 'division by zero')
+            if s and y == -1: raise Unsupported('signed ' + op + ' by -1 of a symbolic value')
+            return IntV(w, sym.binop(op, av, bv, w, s), s)
+        if op == 'Cmp': raise Unsupported('symbolic ' + op)
         if op.startswith('Sh') and b.w != w and bv.__class__ is int: bv = bv % w
         r = sym.binop(op, av, bv, w, s)
         if r.__class__ is tuple: return [IntV(w, r[0], s), BoolV(r[1])]
@@ -792,6 +799,11 @@ class Engine:
             same = a.root is b.root
             if op in ('Eq', 'Ne'):
                 if same: return BoolV((a.off == b.off) == (op == 'Eq'))
+                # two addresses that each point AT an element of a different live allocation cannot be equal (allocations are
+                # disjoint); one-past-the-end or out-of-range offsets could coincide with a neighbour: address-dependent
+                try: inb = 0 <= a.off < len(a.root) and 0 <= b.off < len(b.root)
+                except TypeError: inb = False
+                if inb: return BoolV(op == 'Ne')
                 raise Unsupported('address comparison across allocations')
             if not same: raise Unsupported('address arithmetic across allocations')
             if op in CMP: return BoolV({'Lt': a.off < b.off, 'Le': a.off <= b.off, 'Gt': a.off > b.off, 'Ge': a.off >= b.off}[op])
